@@ -2516,6 +2516,21 @@ class FnTranslator:
             names.append(n)
         return names
 
+    @staticmethod
+    def iteration_locals(body, env):
+        """the names of `env` whose first mention in `body` is a top-level plain assignment `x = e` with e not reading x"""
+        out, seen = set(), set()
+        for st in body:
+            mentioned = {n.id for n in ast.walk(st) if isinstance(n, ast.Name)}
+            if isinstance(st, ast.Assign) and len(st.targets) == 1 and isinstance(st.targets[0], ast.Name):
+                x = st.targets[0].id
+                if x in env and x not in seen and x not in {n.id for n in ast.walk(st.value) if isinstance(n, ast.Name)}:
+                    v = env[x]
+                    if v.view is None and v.bound is None and v.fields is None:
+                        out.add(x)
+            seen |= mentioned
+        return out
+
     def state_type(self, n, env):
         return env[n].ty
 
@@ -2593,6 +2608,15 @@ class FnTranslator:
     def run_loop(self, s_body, env, cont, ctx, src, pat, extra_env, excluded, always_monadic=False, fuel=None):
         """common part of `for` and `while`: the locals the body rebinds become the loop state"""
         exits = self.has_exit(s_body) or fuel is not None
+        if self.spec.get('part', 1) >= 4:
+            # round 4: a local that exists before the loop and that EVERY iteration assigns afresh (plain `x = e` at the top
+            # level of the body, e not reading x) before any other mention of it is a local of one iteration (`row = matrix[i]`
+            # after `row = [2] * width`): it is not loop state, it may become a view, and after the loop it is unknown (old
+            # value or that of the last iteration) — any later read is refused.
+            fresh_each = self.iteration_locals(s_body, env)
+            for nm in fresh_each:
+                self.check_rebind(nm, env)
+            env = {k2: v for k2, v in env.items() if k2 not in fresh_each}
         names = self.state_names(s_body, env, excluded)
         types = [self.state_type(n, env) for n in names]
         acc = self.fresh('acc')
@@ -2996,10 +3020,11 @@ class Translation:
     # ---------------------------------------------------------------- output
     def funcs_text(self, part=1):
         imp, ns = ('Gen.Py', 'Gen.Funcs') if part == 1 else ('Gen.Py2\nimport Gen.Funcs', 'Gen.Funcs2') if part == 2 else \
-            ('Gen.Funcs2', 'Gen.Funcs3')
+            ('Gen.Funcs2', 'Gen.Funcs3') if part == 3 else ('Gen.Funcs3', 'Gen.Funcs4')
         out = ['-- GENERATED by tools/gen.py (tools/pytolean.py: AST translation of the repository working tree). DO NOT EDIT.',
                f'import {imp}', '', 'set_option linter.unusedVariables false', '', f'namespace {ns}',
-               'open Gen.Py' + (' Gen.Funcs' if part == 2 else ' Gen.Funcs Gen.Funcs2' if part == 3 else ''), '']
+               'open Gen.Py' + (' Gen.Funcs' if part == 2 else ' Gen.Funcs Gen.Funcs2' if part == 3 else
+                            ' Gen.Funcs Gen.Funcs2 Gen.Funcs3' if part == 4 else ''), '']
         for nm in self.tables.order:
             if self.part_of_table.get(nm, 1) == part:
                 out += [self.tables.defs[nm][1], '']
@@ -3014,7 +3039,8 @@ class Translation:
         shard k gets the k-th share, `shard=None` is the root file importing the shares"""
         imp, ns, op = ('Gen.Funcs', 'Gen.FuncsCheck', 'Gen.Py Gen.Funcs') if part == 1 else \
             ('Gen.Funcs2', 'Gen.Funcs2Check', 'Gen.Py Gen.Funcs Gen.Funcs2') if part == 2 else \
-            ('Gen.Funcs3', 'Gen.Funcs3Check', 'Gen.Py Gen.Funcs Gen.Funcs2 Gen.Funcs3')
+            ('Gen.Funcs3', 'Gen.Funcs3Check', 'Gen.Py Gen.Funcs Gen.Funcs2 Gen.Funcs3') if part == 3 else \
+            ('Gen.Funcs4', 'Gen.Funcs4Check', 'Gen.Py Gen.Funcs Gen.Funcs2 Gen.Funcs3 Gen.Funcs4')
         head = ['-- GENERATED by tools/gen.py (tools/pytolean.py). DO NOT EDIT.',
                 '-- Translation validation: what the real Python functions returned at generation time on sample arguments,',
                 '-- compared by the Lean kernel with what the translated functions compute.']
@@ -3241,6 +3267,7 @@ def segno_specs(mods, trees):
         s['legacy'] = True      # round 1: translated exactly as in round 1 (Props.TieA quotes these terms)
     specs += segno_specs2(mods, trees, versions, levels)
     specs += segno_specs3(mods, trees, versions, levels)
+    specs += segno_specs4(mods, trees, versions, levels)
     for s in specs:
         s['name'] = s['path'][-1]
     return specs
@@ -3553,6 +3580,29 @@ def segno_specs3(mods, trees, versions, levels):
     return specs
 
 
+def segno_specs4(mods, trees, versions, levels):
+    """round 4 (Gen/Funcs4.lean): `make_matrix` — the matrix is BUILT here (`tuple(bytearray(row) for i in range(height))`:
+    distinct rows), rows are reached through aliases (`row = matrix[i]`, `row_eight = matrix[8]`: views), negative indexes
+    (`row[-11]`, `matrix[-i][8]`), and the round-2 translation of `add_timing_pattern` is called on the local matrix."""
+    MAT = LIST(BYTEARRAY)
+    sizes = [11, 13, 15, 17, 21, 25, 45, 49]
+    flags = [(True, True), (True, False), (False, True), (False, False)]
+    specs = [
+        dict(module='encoder', path=['make_matrix'], params={'width': INT, 'height': INT, 'reserve_regions': BOOL, 'add_timing': BOOL},
+             ret=MAT,
+             cases=[(n, n, True, True) for n in sizes] + [(n, n, r, t) for n in (11, 21, 45) for (r, t) in flags[1:]] +
+                   [(21, 25, r, t) for (r, t) in flags] + [(25, 21, True, True), (43, 43, True, True), (9, 9, True, True), (8, 8, True, True),
+                                                           (8, 8, True, False), (7, 7, False, True), (6, 6, False, True), (0, 0, True, True),
+                                                           (0, 0, False, False), (5, 0, False, True), (0, 3, False, False), (-2, 3, False, False),
+                                                           (3, -2, False, False), (45, 10, True, False), (10, 45, True, False), (12, 9, True, True)],
+             nsamples=0, group=4),
+    ]
+    for s in specs:
+        s['part'] = 4
+        s.setdefault('decide', 'decide +kernel')
+    return specs
+
+
 def parity_with(enc, a):
     """`calc_structured_append_parity(content)` with the three `content.encode(…)` reads replaced by the given outcomes"""
     outcomes = {'iso-8859-1': a['latin1'], 'shift-jis': a['sjis'], 'utf-8': a['utf8']}
@@ -3606,4 +3656,6 @@ def generate(repo, leandir, write_if_changed, modules):
                 write_if_changed(os.path.join(leandir, 'Gen', 'Funcs3Check.lean'), tr.check_text(3, None, CHECK_SHARDS3))]
     for k in range(CHECK_SHARDS3):
         changed.append(write_if_changed(os.path.join(leandir, 'Gen', f'Funcs3Check{k + 1}.lean'), tr.check_text(3, k, CHECK_SHARDS3)))
+    changed += [write_if_changed(os.path.join(leandir, 'Gen', 'Funcs4.lean'), tr.funcs_text(4)),
+                write_if_changed(os.path.join(leandir, 'Gen', 'Funcs4Check.lean'), tr.check_text(4))]
     return changed, tr.report
